@@ -354,10 +354,10 @@ theorem wkt_roundtrip_partial (cfg : Cfg) (hiso : cfg.old3D = false) (g : G) (hw
     readTagged f {} .none (writeToks cfg g) = .ok (project cfg id g, []) :=
   roundtrip_fuel cfg hiso g hwf hdim f hf
 
-/-- the same through `readToks` (whose fuel is the number of tokens + 2), whenever that fuel covers `gFuel g`
+/-- the same through `readToks` (whose fuel is 3·tokens + 4), whenever that fuel covers `gFuel g`
 (decidable; it does for every geometry the generators produce — the proof's fuel measure is generous) -/
 theorem wkt_roundtrip_readToks (cfg : Cfg) (hiso : cfg.old3D = false) (g : G) (hwf : WFs g = true)
-    (hdim : dimOK cfg g = true) (hf : gFuel g ≤ (writeToks cfg g).length + 2) :
+    (hdim : dimOK cfg g = true) (hf : gFuel g ≤ 3 * (writeToks cfg g).length + 4) :
     readToks (writeToks cfg g) = .ok (project cfg id g) :=
   roundtrip_readToks cfg hiso g hwf hdim hf
 
@@ -370,7 +370,7 @@ def demoG : G :=
     .collection [.multiPoint [.point ⟨true, false, [⟨5, 6, 7, nanBits⟩]⟩, .point ⟨true, false, []⟩]]]
 
 /-- non-vacuity: the hypotheses hold for `demoG`, and the round trip is the projection -/
-example : WFs demoG = true ∧ dimOK {} demoG = true ∧ gFuel demoG ≤ (writeToks {} demoG).length + 2 := by decide
+example : WFs demoG = true ∧ dimOK {} demoG = true ∧ gFuel demoG ≤ 3 * (writeToks {} demoG).length + 4 := by decide
 
 /-- **the dimensional-uniformity hypothesis is necessary (finding).**  The writer's own output for a collection
 with one XYZ and one XY point — `GEOMETRYCOLLECTION Z (POINT Z (1 2 3), POINT (1 2))` — is rejected by the
